@@ -383,6 +383,8 @@ def parse_rx(line):
     d = {}
     if line is None:
         return {"eng": "ERR:TIMEOUT"}
+    if not line.startswith("rx "):
+        return {"eng": "ERR:PANIC", "panic": line[:300]}       # common.Loop reports a Go panic of the whole op as one line
     for part in line.split("\t")[1:]:
         k, _, v = part.partition("=")
         d[k] = v
@@ -661,6 +663,11 @@ def run_rx(ctx, h, model, cases, nproc=16):
         if c.get("clean"):
             st["clean_cases"] += 1
         errs = [d["eng"].startswith("ERR") for d in ds]
+        if any(d["eng"] == "ERR:PANIC" for d in ds):
+            k0 = [i for i, d in enumerate(ds) if d["eng"] == "ERR:PANIC"][0]
+            report("rx:go-panic-in-engine-glue", "Go panic while matching /%s/%s on %s: %s" % (meta[ci + k0][2], c["flags"], hx(subj), ds[k0].get("panic")),
+                   c, meta[ci + k0][1], meta[ci + k0][2], {"panic": ds[k0].get("panic")})
+            continue
         if any(d["eng"] == "ERR:TIMEOUT" for d in ds):
             st["timeouts"] += 1
             report("rx:timeout-or-crash", "harness timed out or crashed on %r /%s/" % (c["pattern"], c["flags"]), c, "?", c["pattern"], {})
